@@ -6,7 +6,7 @@ import traceback
 
 from tools import lib
 
-TRANSLATORS = ["tr_classes", "tr_elements", "tr_steps", "tr_formulas"]
+TRANSLATORS = ["tr_classes", "tr_elements", "tr_steps", "tr_formulas", "tr_kk"]
 
 
 def regenerate_all():
